@@ -21,7 +21,7 @@ from evalrun import WorldImpl, build_root
 
 VARSIG = GE.VARSIG
 WORLD = dict(GE.WORLD)
-WORLD['sigs'] = list(GE.WORLD['sigs']) + [
+WORLD['sigs'] = [e for e in GE.WORLD['sigs'] if e[0] not in ('rec.none', 'rec.kw')] + [      # C13 observes received arguments: recording callables only
     ['sig.p3', [['a', 'pk', None], ['b', 'pk', None], ['c', 'pk', None]]],
     ['sig.d3', [['a', 'pk', None], ['b', 'pk', [1]], ['c', 'pk', [2]]]],
     ['sig.ko', [['u', 'ko', None], ['v', 'ko', [5]]]],
